@@ -461,53 +461,22 @@ def rule_G(ctx):
             raise anchor_error('constant %s not found' % k, 'tracklib.algo.interpolation')
         consts[k] = v.value
 
-    class P(orders.PyStub):
-        isa = ('ENUCoords',)
+    # positions and observations are the repository's own ENUCoords / Obs objects (what resample() builds and reads)
+    EN = absint.classref(ctx, 'tracklib.core.obs_coords.ENUCoords', fn)
+    absint.classref(ctx, 'tracklib.core.obs.Obs', fn)
+    fn['sqrt'], fn['hypot'] = math.sqrt, math.hypot
 
-        def __init__(self, x, y, z=0.0):
-            self.c = (float(x), float(y), float(z))
+    def P(x, y, z=0.0):
+        return EN(float(x), float(y), float(z))
 
-        def getX(self):
-            return self.c[0]
+    def O(position, timestamp=None):
+        return absint.real_obs(ctx, fn, position, timestamp)
 
-        def getY(self):
-            return self.c[1]
-
-        def getZ(self):
-            return self.c[2]
-
-        def copy(self):
-            return P(*self.c)
-
-        def distance2DTo(self, o):
-            return math.hypot(self.c[0] - o.c[0], self.c[1] - o.c[1])
-
-        def distanceTo(self, o):
-            return math.sqrt(sum((a_ - b_) ** 2 for a_, b_ in zip(self.c, o.c)))
-
-    P.__name__ = P.__qualname__ = 'ENUCoords'
-
-    class O(orders.PyStub):
-        isa = ('Obs',)
-
-        def __init__(self, position, timestamp=None):
-            self.position = position
-            self.timestamp = timestamp
-            self.features = []
-
-        def copy(self):
-            o = O(self.position.copy(), absint.deep_copy(self.timestamp))
-            o.features = list(self.features)
-            return o
-
-        def distanceTo(self, o):
-            return self.position.distanceTo(o.position)
-
-        def distance2DTo(self, o):
-            return self.position.distance2DTo(o.position)
-    fn['Obs'] = O
-    fn['ENUCoords'] = P
-    fn['__globals__'].update({'Obs': O, 'ENUCoords': P})
+    def obs_view(o):
+        """(position (E, N, U), timestamp) of an observation of a resampled track"""
+        p_ = o.fields.get('position') if isinstance(o, orders.Obj) else None
+        c_ = (p_.fields['E'], p_.fields['N'], p_.fields['U']) if isinstance(p_, orders.Obj) and 'E' in p_.fields else (float('nan'),) * 3
+        return c_, o.fields.get('timestamp') if isinstance(o, orders.Obj) else None
     EPOCH_DEFAULT = (datetime.datetime(2021, 6, 10, 8, 0, 0) - datetime.datetime(1970, 1, 1)).total_seconds()
     EPOCH_NEW_YEAR = (datetime.datetime(2020, 12, 31, 23, 59, 50) - datetime.datetime(1970, 1, 1)).total_seconds()     # second 10 is 1 January 2021, 00:00:00.000
     E0 = [EPOCH_DEFAULT]
@@ -566,7 +535,7 @@ def rule_G(ctx):
         except (IndexError, KeyError, TypeError, AttributeError, ValueError, ZeroDivisionError, orders.Raised) as ex:
             found.setdefault((case['mode'], 'fails'), ('resampling does not fail', dict(case, exception='%s: %s' % (type(ex).__name__, str(ex)[:160]))))
             return
-        got = [(o.position.c, secs(o.timestamp)) for o in t.fields['_Track__POINTS']]
+        got = [(obs_view(o)[0], secs(obs_view(o)[1])) for o in t.fields['_Track__POINTS']]
         names = t.call('getListAnalyticalFeatures')
         if len(got) != len(want):
             found.setdefault((case['mode'], 'count'), ('exactly one observation per requested abscissa inside the admitted range' if mode == consts['MODE_TEMPORAL'] else
@@ -643,7 +612,7 @@ def rule_G(ctx):
             case = {'track': label, 'vertices': [list(p_) for p_ in pts], 'times (s)': times, 'request': 'resample(delta=%.4g, mode=temporal, npts=%d): the step has priority' % (step, npts)}
             try:
                 t.call('resample', step, consts['ALGO_LINEAR'], consts['MODE_TEMPORAL'], npts)
-                got = [(o.position.c, secs(o.timestamp)) for o in t.fields['_Track__POINTS']]
+                got = [(obs_view(o)[0], secs(obs_view(o)[1])) for o in t.fields['_Track__POINTS']]
             except orders.Unsupported as ex:
                 raise shape_error('Track.resample not interpretable: %s' % ex, fr.loc())
             except (IndexError, KeyError, TypeError, AttributeError, ValueError, ZeroDivisionError, orders.Raised) as ex:
@@ -668,7 +637,7 @@ def rule_G(ctx):
     t = with_stale()
     try:
         t.call('resample', ds, consts['ALGO_LINEAR'], SPAT)
-        got = [(o.position.c, secs(o.timestamp)) for o in t.fields['_Track__POINTS']]
+        got = [(obs_view(o)[0], secs(obs_view(o)[1])) for o in t.fields['_Track__POINTS']]
         want = [(tuple(pts[0]), times[0])] + [(lerp(full, S, k * ds)[:3], lerp(full, S, k * ds)[3]) for k in range(1, int(S[-1] / ds + 1e-12) + 1)]
         if len(got) != len(want) or any(not near(g_[0], w_[0]) for g_, w_ in zip(got, want)):
             found.setdefault(('spatial', 'stale'), ('the abscissas are those of the current geometry, whatever features the track carries',
@@ -684,7 +653,7 @@ def rule_G(ctx):
         t = build(pts, times)
         try:
             t.call('resample', None, consts['ALGO_LINEAR'], mode, 4)
-            got = [(o.position.c, secs(o.timestamp)) for o in t.fields['_Track__POINTS']]
+            got = [(obs_view(o)[0], secs(obs_view(o)[1])) for o in t.fields['_Track__POINTS']]
         except orders.Unsupported as ex:
             raise shape_error('Track.resample not interpretable: %s' % ex, fr.loc())
         except (IndexError, KeyError, TypeError, AttributeError, ValueError, ZeroDivisionError, orders.Raised) as ex:
